@@ -95,9 +95,15 @@ def resolve(reg, method, repo=None):
 def eval_call(ex, e, st, awaited=False, yield_from=False):
     from .symexec import Raised
     fn = e.func
-    kwargs = {k.arg: k.value for k in e.keywords}
-    if any(k.arg is None for k in e.keywords):
-        raise Unsupported('**kwargs at call (line %d)' % e.lineno)
+    kwargs = {k.arg: k.value for k in e.keywords if k.arg is not None}
+    stars = [k.value for k in e.keywords if k.arg is None]
+    if stars:
+        # f(..., **kwds) where kwds is the **kwds parameter of the function under contract (a symbolic record:
+        # symexec.run); its entries are handed to the callee's keyword parameters in call_with_args
+        if len(stars) != 1 or not isinstance(stars[0], ast.Name) or stars[0].id not in st.env \
+                or st.env[stars[0].id].kind != 'kwdict':
+            raise Unsupported('**kwargs at call (line %d)' % e.lineno)
+        kwargs['**'] = stars[0]
 
     # ---- calls on names
     if isinstance(fn, ast.Name):
@@ -207,6 +213,10 @@ def call_with_args(ex, c, recv, args, kwargs, st, awaited, e, first_is_self=Fals
     exprs = list(args)
     starred = [i for i, a in enumerate(exprs) if isinstance(a, ast.Starred)]
     plain = [a.value if isinstance(a, ast.Starred) else a for a in exprs]
+    kwdict = None
+    if '**' in kwargs:
+        kwargs = dict(kwargs)
+        kwdict = st.env[kwargs.pop('**').id].extra
     kwnames = list(kwargs)
     res = []
     for st2, vals in ex.ev_many(plain + [kwargs[k] for k in kwnames], st):
@@ -250,6 +260,12 @@ def call_with_args(ex, c, recv, args, kwargs, st, awaited, e, first_is_self=Fals
                     continue
             if pname in kw:
                 bound[pname] = kw.pop(pname)
+            elif kwdict is not None and pname in kwdict:
+                # present in **kwds ? its value : the default
+                present, val = kwdict[pname]
+                k_ = str(pkind).replace('kw:', '')
+                dv = const_value(pdef)
+                bound[pname] = V(k_, z3.If(present, ex.coerce(val, k_, st2), ex.coerce(dv, k_, st2)))
             else:
                 bound[pname] = const_value(pdef)
         if pi < len(pos):
